@@ -7,16 +7,16 @@ ROOT = os.path.dirname(os.path.dirname(os.path.abspath(__file__)))
 E1 = "bounded symbolic execution of the real code (CrossHair + z3), exhaustive per shard"
 CLAIMS = {
  "C01": dict(design="5/C01", tech=E1,
-   text="Every program with up to 2 (quick) / 3 (thorough) faulty stages over a 10-behaviour alphabet x 3 flags x 7 result flavours is executed symbolically on the real TestCase.run/RunTest; z3 exhausts the selector space, so within the bound there is no program for which the run is not bracketed, has not exactly one outcome, or swallows a non-Exception.",
+   text="Every program with up to 2 (quick) / 3 (thorough) faulty stages over a 10-behaviour alphabet x 3 flags x 7 result flavours is executed symbolically on the real TestCase.run/RunTest; z3 exhausts the selector space, so within the bound there is no program for which the run is not bracketed, has not exactly one outcome, or swallows a non-Exception. Further harnesses: 6 skip-decorator forms x {text, empty} reason; a method decorated with unittest.expectedFailure x body x tearDown behaviour; a stage raising a MultipleExceptions without constituents.",
    note="Trusts CrossHair 0.0.110 + z3 path exhaustion ('Confirmed over all paths'), the result doubles shipped with testtools, and the reference semantics in vf/lifecycle.py written from the property statement. Bounds: <=2 cleanups, <=3 faults."),
  "C02": dict(design="5/C02", tech=E1,
-   text="Programs of 3 stages x behaviours plus 0..2 (quick) / 0..3 (thorough) registered actions (cleanups, patches of present/absent attributes, fixtures ok/failing/nested) at 5 registration sites are run twice on one instance; execution log (with the patched attribute's value visible in each entry) is compared with a reference interpreter of the statement; exhaustive within the bound.",
+   text="Programs of 3 stages x behaviours plus 0..2 (quick) / 0..3 (thorough) registered actions (cleanups, patches of present/absent attributes, fixtures ok/failing/nested) at 5 registration sites are run twice on one instance; execution log (with the patched attribute's value visible in each entry) is compared with a reference interpreter of the statement; one callable registered 1..3 times with equal arguments is called once per registration at its LIFO position; exhaustive within the bound.",
    note="Trusts CrossHair/z3 path exhaustion, fixtures 4.3.2, the reference interpreter in vf/harness/c02.py."),
  "C04": dict(design="5/C04", tech=E1,
    text="Every history of <=3 (quick) / <=4 steps over {startTestRun, stopTestRun, stop(), a test with each outcome} x 10 result stacks x failfast {off, set before wrapping, set after wrapping}: wasSuccessful() and shouldStop are compared with a 3-variable reference after every call on the outer object and every underlying result; TextTestResult's summary is parsed (count, OK xor FAILED(failures=K), one section per problem); real suites of three generated TestCases stop dispatching under failfast; TestProgram/TestToolsTestRunner in-process: SystemExit status and summary. Exhaustive within the bound.",
    note="In-process SystemExit instead of a subprocess exit status; verdict of non-testtools targets and of ExtendedToStreamDecorator not demanded."),
  "C05": dict(design="5/C05", tech=E1 + "; symbolic detail payload bytes",
-   text="Two factor harnesses over generated programs: (names) 0..2 user details with names that collide with generated ones, symbolic binary payloads in 1..2 chunks, fixture details (own/colliding name, failing setUp), expectThat/assertThat mismatch details; (accounting) up to 2 (quick)/3 raising stages over 7 behaviours with 0..2 addOnException handlers. The details dict delivered with the single outcome must contain every user/fixture/mismatch detail with identical bytes, the skip reason, one traceback detail per failure/error raised by user code (MultipleExceptions constituents and the assertion behind an expected failure counted), and each handler called once per exception before the outcome. Exhaustive within the bound.",
+   text="Two factor harnesses over generated programs: (names) 0..2 user details with names that collide with generated ones, symbolic binary payloads in 1..2 chunks, fixture details (own/colliding name, failing setUp, failing setUp whose own clean-up fails too), expectThat/assertThat mismatch details; (accounting) up to 2 (quick)/3 raising stages over 7 behaviours with 0..2 addOnException handlers. The details dict delivered with the single outcome must contain every user/fixture/mismatch detail with identical bytes, the skip reason, one traceback detail per failure/error raised by user code (MultipleExceptions constituents and the assertion behind an expected failure counted), and each handler called once per exception before the outcome. Exhaustive within the bound.",
    note="Names are a finite alphabet (names are built by %-formatting concrete strings); user details are attached before the framework generates a detail of that name."),
  "C06": dict(design="5/C06", tech=E1 + "; unbounded symbolic int parameters and matchees",
    text="Matcher expression trees (all depth<=1 trees over the full alphabet, all 3964 depth-2 trees over a reduced alphabet; sequence, dict and structure combinators over leaf matchers) are built from selector opcodes; leaf parameters and matchees are unbounded symbolic ints, so each explored path covers every integer satisfying its path condition; verdict is compared with a denotational evaluator, plus determinism and non-modification.",
@@ -25,7 +25,7 @@ CLAIMS = {
    text="text_repr -> ast.literal_eval round trip for every str (12 character classes) / bytes (8 classes) of length <=3 (quick) / <=4 (thorough) x 3 multiline modes; every stock matcher in testtools.matchers.__all__ (read at run time) x constructor variants x per-type matchee alphabets x verbose x annotation: str(), describe(), get_details(), str(MismatchError), assertThat/assert_that raise iff mismatch, expectThat never raises and fails the test iff mismatch; detail-name collisions. All selectors exhausted by the solver.",
    note="repr and codecs are CPython's (finite alphabets only); filesystem leaves use a prepared scratch directory; FileContains on directories excluded."),
  "C19": dict(design="5/C19", tech=E1 + "; symbolic id-membership bits",
-   text="Every suite tree up to a node/depth bound (pre-order opcode lists; 4 leaf kinds incl. duplicate ids, 4 suite kinds, empty suites) is built and iterate_tests / sorted_tests / filter_by_ids (ids as a container with symbolic membership bits) / TestProgram --list and --load-list (in-process) are compared with reference flatten, sort and filter written from the statement; exhaustive within the bound.",
+   text="Every suite tree up to a node/depth bound (pre-order opcode lists; 4 leaf kinds incl. duplicate ids, 4 suite kinds, empty suites) is built and iterate_tests / sorted_tests / filter_by_ids (ids as a container with symbolic membership bits) / TestProgram --list and --load-list (in-process; list file newline-terminated, unterminated, CRLF with padding) are compared with reference flatten, sort and filter written from the statement; exhaustive within the bound.",
    note="TestProgram is driven in-process with a stub loader; a real temporary file carries the id list."),
  "C17": dict(e2=True, design="5/C17", tech=E1,
    text="Every well-formed history of <=4 (quick) / <=6 (thorough) calls over {startTestRun, startTest, tags(+/-a), tags(+/-b), startTest-less addSkip+stopTest, outcome+stopTest} is replayed into 8 reporters (TestResult, ExtendedToOriginalDecorator over three flavours, ThreadsafeForwardingResult, MultiTestResult, Tagger, ExtendedToStreamDecorator->StreamToExtendedDecorator): current_tags after every call equals a reference scoped set, and the tags observed by the wrapped result / final status events at each outcome equal the reporter's; PlaceHolder tag replay. Exhaustive within the bound.",
@@ -34,22 +34,22 @@ CLAIMS = {
    text="Routing: every rule set of <=3 (quick) / <=4 rules with distinct keys x fallback x event (route code, test id) is run on the real StreamResultRouter with identity tokens in all other fields; start/stop: every sequence of <=5/6 steps over {startTestRun, stopTestRun, add_rule +/- do_start_stop_run} x fallback mode; StreamToQueue push followed by consuming-rule pop (also nested) restores the original route code. Exhaustive within the bound.",
    note="Finite alphabets of route codes/ids in E1; duplicate keys are documented as undefined and excluded."),
  "C08": dict(design="5/C08", tech=E1,
-   text="Adapter stacks of depth 1..2 (ExtendedToOriginalDecorator, MultiTestResult fan-out 1/2, TestResultDecorator, Tagger) over six target flavours incl. TestByTestResult x three kinds of test object x one- and two-test histories (6 outcomes, exc_info or details, optional run boundaries/time/tags/stop/progress/done): each innermost target's startTest/outcome/stopTest sequence equals the history mapped through the documented degradation table, payload text survives, stop() reaches every target, TestByTestResult gets one callback per test with times/tags/details/status. Exhaustive within the bound.",
+   text="Adapter stacks of depth 1..2 (ExtendedToOriginalDecorator, MultiTestResult fan-out 1/2, TestResultDecorator, Tagger) over six target flavours incl. TestByTestResult x three kinds of test object x one- and two-test histories (6 outcomes, exc_info or details, optional run boundaries/time/tags/stop/progress/done): each innermost target's startTest/outcome/stopTest sequence equals the history mapped through the documented degradation table, payload text survives, stop() reaches every target, TestByTestResult gets one callback per test with times/tags/details (also the empty dict)/status; Taggers are built from one-shot iterables. Exhaustive within the bound.",
    note="Details of success/unexpected-success cannot be carried by old-style protocols (not demanded); progress()/done() are called best-effort."),
  "C09": dict(design="5/C09", tech=E1 + "; symbolic chunk bytes and time tokens",
-   text="One- and two-test histories (6 outcomes, exc_info/reason/plain or details with 0..2 details x 0..3 chunks x 4 content types incl. parameterised ones, non-ASCII names and reasons, symbolic octet-stream chunk bytes, symbolic time tokens, run/test-level tags) are pushed through ExtendedToStreamDecorator and StreamToExtendedDecorator; the intermediate stream is checked for well-formedness (inprogress, chunk order, eof exactly on the last chunk, one final status with tags) and the final extended log for id, outcome, times, reason, every non-empty detail's bytes and content type. Exhaustive within the bounds.",
+   text="One- and two-test histories (two tests with distinct ids or the same id reported twice; 6 outcomes, exc_info/reason/plain or details with 0..2 details x 0..3 chunks x 4 content types incl. parameterised ones, non-ASCII names and reasons, symbolic octet-stream chunk bytes, symbolic time tokens, run/test-level tags) are pushed through ExtendedToStreamDecorator and StreamToExtendedDecorator; the intermediate stream is checked for well-formedness (inprogress, chunk order, eof exactly on the last chunk, one final status with tags) and the final extended log for id, outcome, times, reason, every non-empty detail's bytes and content type. Exhaustive within the bounds.",
    note="Text payloads concrete (decoding is C); <=2 tests, <=2 details, <=3 chunks of <=1 byte."),
  "C10": dict(design="5/C10", tech=E1 + "; symbolic chunk bytes and timestamps",
    text="Event sequences (accounting alphabet length <=4/5; other final statuses, id re-use, two routes; attachments with symbolic chunk bytes; tags with symbolic timestamps; a joint alphabet varying all groups) are fed to StreamToDict, StreamSummary and StreamToExtendedDecorator together and compared with a reference accounting model written from the statement; exhaustive within the bounds.",
    note="'fail' may land in errors or failures (exactly one entry); 'exists' through StreamToExtendedDecorator is discarded by design; payload bytes symbolic only for binary mime types."),
  "C11": dict(e2=True, design="5/C11", tech=E1,
-   text="Every decorator tree up to a node/depth bound over {sink, StreamFailFast, StreamToQueue, TimestampingStreamResult, CopyStreamResult x1..3, StreamTagger (3 variants) x1..3} is fed status events (status x tags container incl. frozenset x timestamp x route code x symbolic chunk) and short event sequences; each leaf's log is compared with the composition of one-line specs along its path; the caller's tag container is snapshotted before/after. Exhaustive within the bound.",
+   text="Every decorator tree up to a node/depth bound over {sink, StreamFailFast, StreamToQueue, TimestampingStreamResult, CopyStreamResult x1..3, StreamTagger (3 variants, one with overlapping add/discard sets) x1..3} is fed status events (status x tags container incl. frozenset x timestamp x route code x symbolic chunk x symbolic runnable/eof flags) and short event sequences; each leaf's log is compared with the composition of one-line specs along its path; the caller's tag container is snapshotted before/after. Exhaustive within the bound.",
    note="Clock stubbed by replacing testtools.testresult.real.datetime; sinks are the recording doubles."),
  "C12": dict(design="5/C12", tech=E1 + "; symbolic schedule over a deterministic scheduler, fault position as a selector",
-   text="2 (thorough: 3) forwarder threads share a logging target and a scheduler-aware semaphore; threads are real but run one at a time; at every point where more than one thread is runnable (semaphore acquire/release, every call on the target) the next thread is chosen by a symbolic schedule variable, so the solver enumerates every interleaving up to the stated schedule depth; for every position j the j-th call on the target raises. Oracle: per completed test one contiguous block (start time, startTest, end time, own tags, outcome, stopTest) by one thread, each once, per-thread order, semaphore count back to 1, no deadlock, no worker crash.",
+   text="2 (thorough: 3) forwarder threads share a logging target and a scheduler-aware semaphore; threads are real but run one at a time; at every point where more than one thread is runnable (semaphore acquire/release, every call on the target) the next thread is chosen by a symbolic schedule variable, so the solver enumerates every interleaving up to the stated schedule depth; for every position j the j-th call on the target raises. Tests carry no tags / test-local / run-level / both, and a thread's second test may start at the first one's end time (tie). Oracle: per completed test one contiguous block (start time, startTest, end time, exactly its tags, outcome, stopTest) by one thread, each once, per-thread order, semaphore count back to 1, no deadlock, no worker crash.",
    note="Pre-emption only at synchronisation points and target calls; beyond the schedule depth the lowest-numbered runnable thread runs."),
  "C13": dict(design="5/C13", tech=E1 + "; symbolic schedule over a deterministic scheduler, fault injection",
-   text="ConcurrentTestSuite and ConcurrentStreamTestSuite run with threading/Queue replaced by scheduler-aware fakes, the caller of run() being a scheduled thread too; the solver enumerates the interleavings up to the stated depth for configurations with 1..2 workers, 0..2 tests, a worker whose run() raises, and faults (caller's result raising at a chosen call, make_tests failing after j sub-suites, KeyboardInterrupt from queue.get). Oracle: each sub-suite run once in its own thread; run() returns only when all workers are done; per worker the events arrive complete and in order (stream: with route code and timestamp; TestResult: one test at a time); broken-runner reported; on abort every started worker is told to stop and the exception propagates; no deadlock.",
+   text="ConcurrentTestSuite and ConcurrentStreamTestSuite run with threading/Queue replaced by scheduler-aware fakes, the caller of run() being a scheduled thread too; the solver enumerates the interleavings up to the stated depth for configurations with 1..2 workers, 0..2 tests, a worker whose run() raises or that ends with SystemExit, and faults (caller's result raising at a chosen call, make_tests failing after j sub-suites, KeyboardInterrupt from queue.get). Oracle: each sub-suite run once in its own thread; run() returns only when all workers are done; per worker the events arrive complete and in order (stream: with route code and timestamp; TestResult: one test at a time); broken-runner reported; on abort every started worker is told to stop and the exception propagates; no deadlock.",
    note="'Told to stop' = stop() called on the worker's result object. Real parallel execution outside the claim."),
  "C14": dict(design="5/C14", tech=E1 + " over a virtual-time reactor",
    text="Generated programs under AsynchronousDeferredRunTest (and ForBrokenTwisted) on a virtual-time reactor: each of setUp/body/tearDown/cleanups over 10 behaviours (return, raise, Deferred firing/failing after d, never firing, left-over delayed call, log.err, dropped failed Deferred, skip, fail) with a fault budget, d 0..2, timeouts, stop request instants, logging options. Exactly one outcome between startTest/stopTest; success iff every executed stage was clean and the run completed before timeout/interrupt; timeout/interrupt give an error (interrupt also stops the result); stage log with virtual timestamps equals the reference (each stage starts after the previous Deferred fired, cleanups LIFO); afterwards no pending reactor calls and the Twisted log observers are those installed before. Exhaustive over the selector space.",
@@ -58,10 +58,10 @@ CLAIMS = {
    text="Spinner.run on a deterministic virtual-time reactor: function behaviour x Deferred delay 0..3 x timeout 1..3 x stop request at 0..3/never (every order and tie of fire, timeout, stop) x left-over delayed calls / selectables x pre-installed signal handlers x second run with/without clear_junk; result compared with a first-event-wins reference, and afterwards reactor not running, no pending calls or selectables, junk reported, reactor.stop and signal handlers restored; re-entry refused. Exhaustive over the selector space.",
    note="VReactor = twisted.internet.task.Clock + run/crash/stop/callWhenRunning/removeAll/iterate; the real reactor and wall-clock timing are outside the claim."),
  "C20": dict(design="5/C20", tech=E1 + "; symbolic Deferred results and matcher parameters",
-   text="Deferred state (unfired / fired with symbolic int, None, nested tuple / failed with 3 exception classes) x pre-attached callbacks x inner matchers (Equals on a symbolic parameter): exactly one of has_no_result/succeeded(Always)/failed(Always) matches on fresh Deferreds, succeeded(m)/failed(m) iff state and m, extract_result, matching never fires, results intact for later callbacks in every order of match/fire/add-callback, inspected failures leave no unhandled-failure record at GC, and SynchronousDeferredRunTest gives the same log as the direct program for every (stage, behaviour, flavour). Exhaustive over selectors; all ints within each path.",
-   note="Chained/paused Deferreds outside the claim; GC is CPython refcounting + gc.collect()."),
+   text="Deferred state (unfired / fired with symbolic int, None, nested tuple / failed with 5 exception classes incl. SystemExit/KeyboardInterrupt / fired but paused on an unfired Deferred) x pre-attached callbacks x inner matchers (Equals on a symbolic parameter): exactly one of has_no_result/succeeded(Always)/failed(Always) matches on fresh Deferreds, succeeded(m)/failed(m) iff state and m, extract_result, matching never fires, results intact for later callbacks in every order of match/fire/add-callback, inspected failures leave no unhandled-failure record at GC, and SynchronousDeferredRunTest gives the same log as the direct program for every (stage, behaviour, flavour). Exhaustive over selectors; all ints within each path.",
+   note="Deferreds paused with pause() outside the claim; GC is CPython refcounting + gc.collect()."),
  "C16": dict(design="5/C16", tech=E1 + "; symbolic byte payloads, chunk sizes and offsets",
-   text="Chunk reader on symbolic data bytes/chunk sizes/offsets (all values within length bound), real-file reader, chunk-independent decoding for every pair of cut positions over a class-representative alphabet, Content equality on symbolic bytes, ContentType MIME round trip over a token/value alphabet, snapshot semantics; exhaustive within the bounds.",
+   text="Chunk reader on symbolic data bytes/chunk sizes/offsets (all values within length bound), real-file reader, chunk-independent decoding for every pair of cut positions over a class-representative alphabet, Content equality on symbolic bytes, ContentType MIME round trip over a token/value alphabet (separators, non-ASCII, upper case), buffered / file contents iterated twice, snapshot semantics; exhaustive within the bounds.",
    note="Stream modelled by ModelStream (io.BytesIO contract); codecs are CPython's (text is a finite alphabet); open known finding F9 (charset containing a comma) is excluded by class."),
  "C03": dict(design="5/C03", tech=E1,
    text="Same program space as C01 with the soundness oracle (success iff nothing raised; single exception maps by type with user handlers first; a failure/error is never downgraded) plus a handler-precedence harness; exhaustive within the bound.",
